@@ -5,18 +5,29 @@
 (* carries obs = the job status, the reservation and the pod as read from  *)
 (* the fake API server after the step; a reconcile event also carries the  *)
 (* calls the controller issued (Evict, CreateReservation,                  *)
-(* DeleteReservation, Preempt), each stamped with the reservation and pod  *)
-(* read from the API server at that instant, and whether an injected API   *)
-(* failure was hit.                                                        *)
+(* DeleteReservation, Preempt), each stamped with the reservation, the pod *)
+(* and the job's persisted phase (jp) read from the API server at that     *)
+(* instant, whether an injected API failure was hit, and writes = the      *)
+(* phase of the job read back from the API server after every write of the *)
+(* job that the API server accepted during this reconcile, in order.       *)
 (*                                                                         *)
 (* What is CHECKED (the statement of C17, nothing else):                   *)
 (*   GInv     every Evict stamp has capacity secured                       *)
-(*   TmStep   a finished job keeps its phase, no Evict / CreateReservation *)
+(*   TmStep   a finished job keeps its phase, no Evict / CreateReservation: *)
+(*            judged on the phase after the previous step FOLLOWED BY the   *)
+(*            phase persisted by every successful write of the job in this *)
+(*            reconcile (Ev.writes, read back from the API server after    *)
+(*            each write), and on the persisted phase stamped on each call *)
 (*   TtInv    a job failed by Timeout has no reservation left              *)
+(*            (TtTraceInv: with VERIF_TOLERATE_C17_TT set - second pass of  *)
+(*            lib/pipeline.py over segments rejected for the recorded      *)
+(*            finding - not demanded of a job whose reservation reference  *)
+(*            was never recorded; everything else stays)                   *)
 (*   OnceInv  no API failure so far => at most one Evict call              *)
 (* plus the harness's own discipline: environment events are legal and do  *)
 (* what the model says (so that a stamp means what the predicates assume), *)
-(* and a reconcile leaves the pod alone.                                   *)
+(* a reconcile leaves the pod alone, and the write log explains the job    *)
+(* observed after the reconcile (WritesBind).                              *)
 (* The state after a reconcile is TAKEN from the observation; equality     *)
 (* with the transcription Rec(..) is only a diagnostic (explain mode, or   *)
 (* enforced when VERIF_C17_STRICT is set - development aid, never used by  *)
@@ -25,6 +36,11 @@
 EXTENDS MigrationJob, TraceCommon
 
 Strict == "VERIF_C17_STRICT" \in DOMAIN IOEnv
+\* the recorded finding C17-unrecorded-reservation-left-behind-on-ttl (known_findings.json): createReservation created the
+\* Reservation, the Update(job) recording its reference failed, the TTL passed: the job is Failed/Timeout with ref = FALSE
+\* and the reservation is still there. With the switch set exactly that situation is not judged by (Tt).
+TolerateTt == "VERIF_TOLERATE_C17_TT" \in DOMAIN IOEnv
+TtTraceInv == IF TolerateTt /\ ~job.ref THEN TRUE ELSE TtInv
 
 \* projection of the raw reservation fields onto the model's reservation
 StOf(x) == IF ~x.exists THEN "none"
@@ -42,7 +58,10 @@ AbsP(x) == [exists |-> x.exists, uid |-> x.uid, node |-> x.node, ready |-> x.rea
 AbsJ(x) == [phase |-> x.phase, reason |-> x.reason, status |-> x.status, node |-> x.node, uid |-> x.uid, ref |-> x.ref,
             cCreated |-> x.cCreated, cSched |-> x.cSched, cEvict |-> x.cEvict,
             cPodBound |-> x.cPodBound, cBound |-> x.cBound, cReady |-> x.cReady]
-AbsCalls(cs) == [i \in 1..Len(cs) |-> [kind |-> cs[i].kind, ok |-> cs[i].ok, r |-> AbsR(cs[i].r), p |-> AbsP(cs[i].p)]]
+AbsCalls(cs) == [i \in 1..Len(cs) |-> [kind |-> cs[i].kind, ok |-> cs[i].ok, r |-> AbsR(cs[i].r), p |-> AbsP(cs[i].p), jp |-> cs[i].jp]]
+\* the harness's own discipline for the write log: the job is written by the controller only, so what is observed after the
+\* reconcile is what the last persisted write left (no write: the job is as it was)
+WritesBind(j, jn, ws) == IF Len(ws) = 0 THEN jn = j ELSE ws[Len(ws)] = jn.phase
 ToSetOf(s) == {s[i] : i \in 1..Len(s)}
 
 \* the pod of the model remembers the uid of a deleted pod (for numbering replacements); the API server does not
@@ -70,7 +89,7 @@ TRestart    == IsEvent("restart") /\ Restart /\ ObsEnv(Ev)
 \* what the transcription predicts for this reconcile (diagnostic)
 NormP(p) == IF p.exists THEN p ELSE [p EXCEPT !.uid = 0]
 Predicted(e) == LET o == Rec(job, resv, pod, now, par, restarted, ToSetOf(e.fail))
-                IN  [job |-> o.j, r |-> o.r, hit |-> o.hit,
+                IN  [job |-> o.j, r |-> o.r, hit |-> o.hit, writes |-> o.ph,
                      calls |-> [i \in 1..Len(o.calls) |-> [o.calls[i] EXCEPT !.p = NormP(@)]]]
 TReconcile ==
     /\ IsEvent("reconcile")
@@ -79,14 +98,18 @@ TReconcile ==
        IN  /\ job' = AbsJ(Ev.obs.job)
            /\ resv' = AbsR(Ev.obs.r)
            /\ lastCalls' = cs
+           /\ lastWrites' = Ev.writes
            /\ nEvict' = Min2(nEvict + NumKind(cs, {"Evict"}), EvictCap)
            /\ faulted' = (faulted \/ Ev.hit)
            /\ UNCHANGED <<pod, now, par, restarted>>
            /\ SamePod(pod, AbsP(Ev.obs.p))                      \* the controller touches the pod only through Evict
-           /\ Expect(/\ TmStep(job, job', lastCalls')                      \* (Tm)
-                     /\ (Strict => (pr.job = job' /\ pr.r = resv' /\ pr.calls = cs /\ pr.hit = Ev.hit)),
+           /\ WritesBind(job, job', Ev.writes)
+           /\ Expect(/\ TmStep(job, job', lastCalls', lastWrites')         \* (Tm)
+                     /\ (Strict => (pr.job = job' /\ pr.r = resv' /\ pr.calls = cs /\ pr.hit = Ev.hit /\ pr.writes = Ev.writes)),
                      \* explain mode: which clause is false in the state reached by this event, and what the transcription predicts
-                     [clauses |-> [G_holds |-> G(cs), Tm_holds |-> TmStep(job, job', lastCalls'), Tt_holds |-> TtInv', Once_holds |-> OnceInv'],
+                     [clauses |-> [G_holds |-> G(cs), Tm_holds |-> TmStep(job, job', lastCalls', lastWrites'),
+                                   Tm_writes_holds |-> TmWrites(job, Ev.writes), Tm_calls_holds |-> TmCalls(cs),
+                                   Tt_holds |-> TtTraceInv', Once_holds |-> OnceInv'],
                       transcription |-> pr])
 
 TraceInit == \E i \in Starts :
